@@ -6,6 +6,8 @@ package main
 //   stress-incdec decs=<n> ms=<duration>      answer: ok | panic <where>
 //   stress-arrive max=<m> workers=<n> rounds=<r>   (simultaneous arrivals at max-1)
 //   stress-churn  max=<m> workers=<n> txns=<t>     (admit / in flight / release churn)
+//   stress-realclock max=<m> exp=<sec> gc=<sec>    (a full engine on the PRODUCTION clock: abandoned transactions keep their
+//                                                   slots until their expiry and lose them by the next collector pass)
 
 import (
 	"context"
@@ -265,6 +267,81 @@ func stressChurn(max, workers, txns int) (res string) {
 	return "ok"
 }
 
+// A full engine (quota and flow files, streams.NewStream, ExecuteFlow) on the production clock, as the gateway runs.
+// `max` transactions are admitted and never answered. Until the earliest expiry written into the set has passed on the
+// wall clock every one of them must still hold its slot (gc_removes_only_expired: a collector pass must not free a live
+// slot); once the latest expiry has passed they must be gone after at most one collector interval (plus slack for a
+// loaded machine), and a newcomer gets a slot. Only wall-clock comparisons taken AFTER the reading decide, so a slow
+// machine cannot produce a false report of the first kind.
+func stressRealClock(max, expSec, gcSec int64) string {
+	c := caseCfg{gcSec: gcSec, gcSet: true, order: []int{0},
+		quotas: []qspec{{conc: true, max: max, expSec: expSec, expSet: true, parent: -1}}}
+	e, err := newEngineOn(c, true)
+	if err != nil {
+		return "err:init"
+	}
+	defer e.close()
+	for k := int64(1); k <= max; k++ {
+		if v := e.request(fmt.Sprintf("t%d", k), false, "x", false); v != "a" {
+			return fmt.Sprintf("not-admitted tx=%d v=%s", k, v)
+		}
+	}
+	if v := e.request("t900", false, "x", false); v != "r" {
+		return "exceeded at-start v=" + v
+	}
+	qo, err := e.rm.GetQuota(qname(0), "")
+	if err != nil {
+		return "err:quota"
+	}
+	ms, ok := members(qo)
+	if !ok || int64(len(ms)) != max {
+		return fmt.Sprintf("err:members %d/%d", len(ms), max)
+	}
+	var earliest, latest int64
+	for _, m := range ms {
+		var ex int64
+		if _, err := fmt.Sscanf(m, "%d:", &ex); err != nil {
+			return "err:member " + m
+		}
+		if earliest == 0 || ex < earliest {
+			earliest = ex
+		}
+		if ex > latest {
+			latest = ex
+		}
+	}
+	for {
+		l, _ := members(qo)
+		t2 := time.Now().UnixNano()
+		if t2 >= earliest {
+			break
+		}
+		if int64(len(l)) < max {
+			return fmt.Sprintf("freed-live-slot held=%d/%d ms-before-expiry=%d", len(l), max, (earliest-t2)/int64(time.Millisecond))
+		}
+		time.Sleep(10 * time.Millisecond)
+	}
+	deadline := latest + (gcSec+4)*int64(time.Second)
+	for {
+		l, _ := members(qo)
+		if len(l) == 0 {
+			break
+		}
+		if t2 := time.Now().UnixNano(); t2 > deadline {
+			return fmt.Sprintf("kept-expired-slot held=%d/%d ms-after-expiry=%d", len(l), max, (t2-latest)/int64(time.Millisecond))
+		}
+		time.Sleep(10 * time.Millisecond)
+	}
+	if v := e.request("t901", false, "x", false); v != "a" {
+		return "starved-after-expiry v=" + v
+	}
+	e.response("t901", false, "x")
+	if n := e.total(); n != 0 {
+		return fmt.Sprintf("leak held=%d", n)
+	}
+	return "ok"
+}
+
 func execStress(c proto.Case, o *proto.Out) []string {
 	outs := make([]string, len(c.Ops))
 	in := func(v, lo, hi int64) bool { return v >= lo && v <= hi }
@@ -288,6 +365,13 @@ func execStress(c proto.Case, o *proto.Out) []string {
 			if ok1 && ok2 && ok3 && in(mx, 1, 16) && in(wk, 2, 64) && in(rd, 1, 100000) {
 				outs[i] = stressArrive(int(mx), int(wk), int(rd))
 			}
+		case "stress-realclock":
+			mx, ok1 := kvI(w, "max")
+			ex, ok2 := kvI(w, "exp")
+			gc, ok3 := kvI(w, "gc")
+			if ok1 && ok2 && ok3 && in(mx, 1, 16) && in(ex, 1, 10) && in(gc, 1, 10) {
+				outs[i] = stressRealClock(mx, ex, gc)
+			}
 		case "stress-churn":
 			mx, ok1 := kvI(w, "max")
 			wk, ok2 := kvI(w, "workers")
@@ -304,6 +388,11 @@ func execStress(c proto.Case, o *proto.Out) []string {
 func genStress(emit func(proto.Case), thorough bool) {
 	for _, d := range []int{1, 4} {
 		emit(proto.Case{ID: fmt.Sprintf("stress:incdec-%d", d), Ops: []string{fmt.Sprintf("stress-incdec decs=%d ms=1500", d)}})
+	}
+	// expiry beyond the first collector pass (a live slot at a pass), and a pass interval beyond the expiry
+	for _, p := range [][3]int{{2, 2, 1}, {1, 1, 2}} {
+		emit(proto.Case{ID: fmt.Sprintf("stress:realclock-exp%d-gc%d", p[1], p[2]),
+			Ops: []string{fmt.Sprintf("stress-realclock max=%d exp=%d gc=%d", p[0], p[1], p[2])}})
 	}
 	rounds, txns := 1500, 1500
 	if thorough {
